@@ -240,3 +240,53 @@ Proof.
   rewrite (nth_map0 (fun j => nth j keys 0)) by exact Hp.
   rewrite argsort_inverts by (try exact Ps; lia). reflexivity.
 Qed.
+
+(* ---- array form of the getters: every entry is the single-point result of its own point ---------------- *)
+Lemma array_query_paired {A B C} (single : A -> B -> C) xs Ts i x t :
+  length xs = length Ts -> nth_error xs i = Some x -> nth_error Ts i = Some t ->
+  exists l, array_query single xs Ts = Some l /\ length l = length xs /\ nth_error l i = Some (single x t).
+Proof.
+  intros L Hx Ht. unfold array_query, process_xT. rewrite L, Nat.eqb_refl. simpl.
+  eexists. split; [reflexivity|]. split.
+  - rewrite map_length, combine_length. lia.
+  - rewrite nth_error_map.
+    assert (E : nth_error (combine xs Ts) i = Some (x, t)).
+    { clear L. revert Ts i Hx Ht. induction xs as [|a xs IH]; intros [|b Ts] [|i] Hx Ht; simpl in *; try discriminate.
+      - inversion Hx; inversion Ht; reflexivity.
+      - apply IH; assumption. }
+    rewrite E. reflexivity.
+Qed.
+
+Lemma array_query_one_x {A B C} (single : A -> B -> C) x Ts i t :
+  length Ts <> 1 -> nth_error Ts i = Some t ->
+  exists l, array_query single [x] Ts = Some l /\ length l = length Ts /\ nth_error l i = Some (single x t).
+Proof.
+  intros L Ht. unfold array_query, process_xT. simpl length.
+  destruct (Nat.eqb_spec 1 (length Ts)) as [E|_]; [congruence|]. simpl.
+  eexists. split; [reflexivity|]. split; [rewrite !map_length; reflexivity|].
+  rewrite map_map, nth_error_map, Ht. reflexivity.
+Qed.
+
+Lemma array_query_one_T {A B C} (single : A -> B -> C) xs t i x :
+  length xs <> 1 -> nth_error xs i = Some x ->
+  exists l, array_query single xs [t] = Some l /\ length l = length xs /\ nth_error l i = Some (single x t).
+Proof.
+  intros L Hx. unfold array_query, process_xT. simpl length.
+  destruct (Nat.eqb_spec (length xs) 1) as [E|_]; [congruence|].
+  destruct xs as [|a [|b xs]]; [destruct i; discriminate | simpl in L; congruence |].
+  cbv beta iota. eexists. split; [reflexivity|]. split; [simpl; rewrite !map_length; reflexivity|].
+  unfold option_map. rewrite map_map, nth_error_map, Hx. reflexivity.
+Qed.
+
+(* consequently two array calls agree wherever their points agree, and an entry never depends on its neighbours *)
+Lemma array_query_local {A B C} (single : A -> B -> C) xs Ts xs' Ts' i j x t l l' :
+  length xs = length Ts -> length xs' = length Ts' ->
+  nth_error xs i = Some x -> nth_error Ts i = Some t -> nth_error xs' j = Some x -> nth_error Ts' j = Some t ->
+  array_query single xs Ts = Some l -> array_query single xs' Ts' = Some l' ->
+  nth_error l i = nth_error l' j.
+Proof.
+  intros L L' Hx Ht Hx' Ht' E E'.
+  destruct (array_query_paired single xs Ts i x t L Hx Ht) as (m & Em & _ & Hm).
+  destruct (array_query_paired single xs' Ts' j x t L' Hx' Ht') as (m' & Em' & _ & Hm').
+  rewrite E in Em. rewrite E' in Em'. inversion Em; inversion Em'; subst. rewrite Hm, Hm'. reflexivity.
+Qed.
